@@ -115,7 +115,7 @@ CHECKS["C19"] = {
 CHECKS["C10"] = {
     "corpus": True,
     "runs": [R("./vm", {"fn": r"^ZZ_C10_"})],
-    "expect_asserts": [r"C10\.slice-read/int64/addressed-element", r"C10\.slice-slice/b:e:c/shares-storage", r"C10\.slice-write/int64/append-at-len", r"C10\.map-write/unhashable-key-is-error", r"C10\.string-write/in-range", r"C10\.typed-slice/store-converts-as-go", r"C10\.struct/unknown-field-read-is-error", r"C10\.read-is-a-value/copy-keeps-the-value-read/swap/.*", r"C10\.read-is-a-value/copy-keeps-the-value-read/defer-argument/.*"],
+    "expect_asserts": [r"C10\.slice-read/int64/addressed-element", r"C10\.slice-slice/b:e:c/shares-storage", r"C10\.slice-write/int64/append-at-len", r"C10\.map-write/unhashable-key-is-error", r"C10\.string-write/in-range", r"C10\.typed-slice/store-converts-as-go", r"C10\.struct/unknown-field-read-is-error", r"C10\.read-is-a-value/copy-keeps-the-value-read/swap/.*", r"C10\.read-is-a-value/copy-keeps-the-value-read/defer-argument/.*", r"C10\.literal-is-fresh/each-evaluation-yields-a-new-container/.*", r"C10\.read-is-a-value/copy-keeps-the-value-read/left-operand-with-right-operand-shapes/.*"],
     "bounds": {"slices": "len 0..3, cap len..len+1, symbolic int64 elements", "indices and bounds": "arbitrary int64 / float64 / int32 / bool and non-numeric classes (no bound on the value)",
                "maps": "0..3 entries over a key pool incl. nil and an unhashable key", "strings": "symbolic ASCII, length 0..3", "typed containers": "[]int64 with values of 6 classes; struct{A int64; B string; C []interface{}}",
                "histories": "single operations (step lemma) plus slice-then-append through two aliased variables; read-then-overwrite: 18 receiving forms (variable, var, parameter, variadic parameter, list / map literal, defer / go argument, function result, result under a deferred store, return list, swap, rotation, two targets, left operand of an arithmetic / comparison operator, spread assignment and var) x 8 containers ([]interface{}, []int64, two map types, struct value, struct pointer, slice of slices, slice of structs), symbolic payloads, from source text"},
@@ -138,9 +138,11 @@ CHECKS["C07"] = {
 
 CHECKS["C08"] = {
     "corpus": True,
-    "runs": [R("./vm", {"fn": r"^ZZ_C08_(control_(d1|d2_lite|d1_text)|truthiness|forin_slice|forin_map|forin_corner_entries)$"}, {"fn": r"^ZZ_C08_(control_(d1|d2_b2|d1_text|d2_text)|truthiness|forin_slice|forin_map|forin_corner_entries)$", "wall_timeout": 10000})],
-    "expect_asserts": [r"C08\.probe-trace", r"C08\.error-status", r"C08\.return-value", r"C08\.truthiness/branch-taken-iff-truthy/.*", r"C08\.for-in-slice/index-order-and-element/.*", r"C08\.for-in-map/every-entry-once/.*"],
-    "bounds": {"quick": "all abstract programs of depth 1 (11 statement kinds x leaf outcomes x condition truth sequences of <= 2 true evaluations x 0..2 for-in elements) and depth-2 programs over 7 kinds with one nested compound (lite); return leaves are `return v`, bare `return` or `return v, w`; switch cases list one or two expressions; the depth-1 programs are also rendered as source text and run through the parser, with the default clause before, between or after the cases",
+    "runs": [R("./vm", {"fn": r"^ZZ_C08_(control_(d1|d2_lite|d1_text)|truthiness|forin_slice|forin_map|forin_corner_entries)$"}, {"fn": r"^ZZ_C08_(control_(d1|d2_b2|d1_text|d2_text)|truthiness|forin_slice|forin_map|forin_corner_entries)$", "wall_timeout": 10000}),
+             R("./vm", {"fn": r"^ZZ_C08_forin_long$", "budget": 400000000})],
+    "expect_asserts": [r"C08\.for-in-long/body-runs-exactly-while-the-loop-lasts/.*", r"C08\.probe-trace", r"C08\.error-status", r"C08\.return-value", r"C08\.truthiness/branch-taken-iff-truthy/.*", r"C08\.for-in-slice/index-order-and-element/.*", r"C08\.for-in-map/every-entry-once/.*"],
+    "bounds": {"long loops": "for-in over []interface{}, []int64, a channel and a counting loop of c-1, c, c+1, 2c+1 iterations for every integer constant c (8..65536, lengths up to 9000) written in /repo/vm and /repo/env (extracted on every run), left by break / return / continue / at the end at the second, middle or next-to-last element",
+               "quick": "all abstract programs of depth 1 (11 statement kinds x leaf outcomes x condition truth sequences of <= 2 true evaluations x 0..2 for-in elements) and depth-2 programs over 7 kinds with one nested compound (lite); return leaves are `return v`, bare `return` or `return v, w`; switch cases list one or two expressions; the depth-1 programs are also rendered as source text and run through the parser, with the default clause before, between or after the cases",
                "thorough": "depth 2 with <= 2 compound statements over all 11 kinds, as trees and as source text"},
     "stubs": [], "assumptions": ["break/continue are never placed outside a loop (the statement leaves that open)", "enumerated by forking: skeleton, outcomes and truth values are concrete per path"],
     "outside": ["depth 3", "maps of more than 3 entries and slices of more than 3 elements in for-in", "truthiness of numeral / boolean-word strings (\"0\", \"false\": the statement only names empty / non-empty strings)"],
@@ -262,7 +264,7 @@ CHECKS["C11"] = {
     "corpus": True,
     "runs": [R("./vm", {"fn": r"^ZZ_C11_"})],
     "expect_asserts": [r"C11\.convert/value-as-go-converts/int64->int8", r"C11\.convert/value-as-go-converts/float64->int32", r"C11\.convert-table/convertible-iff-go-converts/.*", r"C11\.call/fixed/integers-converted-as-go",
-                       r"C11\.call/variadic-spread/tail-elements", r"C11\.results/several-in-order", r"C11\.identity/define-get-same-pointer", r"C11\.method/pointer-receiver-called-with-receiver", r"C11\.callback/result-converted-to-declared-type"],
+                       r"C11\.call/variadic-spread/tail-elements", r"C11\.results/several-in-order", r"C11\.identity/define-get-same-pointer", r"C11\.method/pointer-receiver-called-with-receiver", r"C11\.callback/result-converted-to-declared-type", r"C11\.host-values/value-is-go's-conversion/.*"],
     "bounds": {"conversion lemma": "symbolic int64 / float64 sources (plain and interface-wrapped) x 11 numeric target types; 21 rows of non-numeric pairs (nil -> zero value, element-wise slices and maps, 1-character strings, unconvertible pairs)",
                "calls": "13 call shapes over host functions that record their arguments (fixed with six parameter types, variadic, variadic interface, slice parameter, spread, 0/1/2/3 results, (value, error))",
                "identity / members": "13 cases over a struct pointer, a struct value, a typed slice, an error value", "callbacks": "7 cases over five Go func types"},
